@@ -55,6 +55,10 @@ def file_family(tier):
             c = dict(base)
             c.update(dv)
             yield c
+    # FCS 2.0 files (no copy of the offsets in TEXT) with a gap between TEXT and DATA: a HEADER offset damaged to 0 cannot be made up for
+    for base in bases[:4]:
+        yield dict(base, version='FCS2.0', pad=7, _dev=2)
+        yield dict(base, version='FCS2.0', pad=3, analysis='header', _dev=3)
     # seven-byte rows with bytes after DATA (a wrong event count may happen to match a wrong unit of the size check)
     for n in (4, 2, 5):
         for ver, an in (('FCS3.0', 'header'), ('FCS2.0', 'header'), ('FCS3.1', 'text')):
@@ -144,6 +148,21 @@ def judge(res, what, sig, damaged, intact, one, rewritten=()):
     path = os.path.join(scratch(), 'c16d.fcs')
     with open(path, 'wb') as f:
         f.write(damaged)
+    if sig.startswith('cut:'):
+        # the same damaged content handed over as an in-memory file object ("str or file-like"): the same alternatives, loud or intact
+        try:
+            import io as _io
+            import FlowCal
+            with warnings.catch_warnings():
+                warnings.simplefilter('ignore')
+                fb = FlowCal.io.FCSFile(_io.BytesIO(damaged))
+                evb = c01.as_bits(np.asarray(fb.data)) if np.asarray(fb.data).ndim == 2 else None
+            if evb != intact[3] or dict(fb.text) != dict(intact[1]):
+                res.violation(sig + ':in-memory', '%s, handed over as an in-memory file object, loaded without error as events %s (shape %s) / other keywords' % (
+                    what, str(evb)[:80], np.asarray(fb.data).shape), one)
+                return
+        except Exception:
+            pass
     out = load(path)
     if out[0] == 'err':
         out = load_file(path)
